@@ -723,3 +723,43 @@ MUTANTS += [
  dict(id="C20-worker-removed-adds", props=["C20"], expect={"C20": r"tally#worker_arithmetic"},
       edits=[(US+"workers/statistics/mod.rs", "                            *count -= 1;\n\n                            if *count == 0 {", "                            *count += 1;\n\n                            if *count == 0 {")]),
 ]
+
+HP = "crates/http_protocol/src/"
+MUTANTS += [
+ dict(id="C14-incomplete-before-complete", props=["C14"], expect={"C14": r"bencode#AnnounceResponse#wellformed"},
+      edits=[(HP+"response.rs", """        bytes_written += output.write(b"d8:completei")?;
+        bytes_written += output.write(itoa::Buffer::new().format(self.complete).as_bytes())?;
+
+        bytes_written += output.write(b"e10:incompletei")?;
+        bytes_written += output.write(itoa::Buffer::new().format(self.incomplete).as_bytes())?;
+""", """        bytes_written += output.write(b"d10:incompletei")?;
+        bytes_written += output.write(itoa::Buffer::new().format(self.incomplete).as_bytes())?;
+
+        bytes_written += output.write(b"e8:completei")?;
+        bytes_written += output.write(itoa::Buffer::new().format(self.complete).as_bytes())?;
+""")]),
+ dict(id="C14-peers-len-times-8", props=["C14"], expect={"C14": r"bencode#AnnounceResponse#wellformed"},
+      edits=[(HP+"response.rs", "                .format(self.peers.0.len() * 6)", "                .format(self.peers.0.len() * 8)")]),
+ dict(id="C14-scrape-missing-final-e", props=["C14"], expect={"C14": r"bencode#ScrapeResponse#wellformed"},
+      edits=[(HP+"response.rs", "            bytes_written += output.write(b\"ee\")?;\n        }\n\n        bytes_written += output.write(b\"ee\")?;", "            bytes_written += output.write(b\"ee\")?;\n        }\n\n        bytes_written += output.write(b\"e\")?;")]),
+ dict(id="C14-writer-left-renamed", props=["C14"], expect={"C14": r"request#announce#(writer|agreement)"},
+      edits=[(HP+"request.rs", "        output.write_all(b\"&left=\")?;", "        output.write_all(b\"&remaining=\")?;")]),
+ dict(id="C14-reader-uploaded-into-downloaded", props=["C14"], expect={"C14": r"request#announce#(reader|agreement)"},
+      edits=[(HP+"request.rs", """                "uploaded" => {
+                    opt_bytes_uploaded =""", """                "uploaded" => {
+                    opt_bytes_downloaded ="""),
+             (HP+"request.rs", """                "downloaded" => {
+                    opt_bytes_downloaded =""", """                "downloaded" => {
+                    opt_bytes_uploaded =""")]),
+ dict(id="C14-urldecode-no-exhaustion-test", props=["C14"], expect={"C14": r"decode20#exhaustion_tested"},
+      edits=[(HP+"utils.rs", "    if chars.next().is_some() {\n        return Err(anyhow::anyhow!(\"more than 20 chars\"));\n    }\n\n    Ok(out_arr)", "    Ok(out_arr)")]),
+ dict(id="C14-event-stopped-written-as-stop", props=["C14"], expect={"C14": r"request#announce#events"},
+      edits=[(HP+"request.rs", "            AnnounceEvent::Stopped => output.write_all(b\"&event=stopped\")?,", "            AnnounceEvent::Stopped => output.write_all(b\"&event=paused\")?,")]),
+ dict(id="C14-failure-length-from-chars", props=["C14"], expect={"C14": r"bencode#FailureResponse#wellformed"},
+      edits=[(HP+"response.rs", "        bytes_written += output.write(itoa::Buffer::new().format(reason_bytes.len()).as_bytes())?;", "        bytes_written += output.write(itoa::Buffer::new().format(self.failure_reason.chars().count()).as_bytes())?;")]),
+ dict(id="C14-peer6-port-little-endian-width", props=["C14"], expect={"C14": r"bencode#AnnounceResponse#wellformed"},
+      edits=[(HP+"response.rs", "            bytes_written += output.write(&u128::from(peer.ip_address).to_be_bytes())?;\n            bytes_written += output.write(&peer.port.to_be_bytes())?;", "            bytes_written += output.write(&u128::from(peer.ip_address).to_be_bytes())?;\n            bytes_written += output.write(&(peer.port as u32).to_be_bytes())?;")]),
+ dict(id="C14-failure-optional", props=["C14"], expect={"C14": r"untagged#Response#"},
+      edits=[(HP+"response.rs", "pub enum Response {\n    Announce(AnnounceResponse),\n    Scrape(ScrapeResponse),\n    Failure(FailureResponse),\n}", "pub enum Response {\n    Failure(FailureResponse),\n    Announce(AnnounceResponse),\n    Scrape(ScrapeResponse),\n}"),
+             (HP+"response.rs", "pub struct FailureResponse {\n    #[serde(rename = \"failure reason\")]", "pub struct FailureResponse {\n    #[serde(rename = \"failure reason\", default)]")]),
+]
